@@ -10,7 +10,7 @@ import (
 	"fmt"
 	"os"
 
-	"verif/harness/internal/core"
+	"gonum.org/v1/gonum/verifharness/internal/core"
 )
 
 func main() {
